@@ -414,7 +414,7 @@ RULES = {
 
 
 DOTALL = ["inner_macro_def", "mismatch_debug", "offered_let"]
-DOTALL_EXTRA = DOTALL   # (one list; json targets add to it through register_json_rules)
+JSON_DOTALL = DOTALL_EXTRA = DOTALL   # (one list; json targets add to it through register_json_rules)
 
 
 def register_json_rules(d, origin):
@@ -423,9 +423,10 @@ def register_json_rules(d, origin):
     defined differently is an error; a regex may also start with `(?s)`), `"rules_dotall": [names]`,
     `"normalise": {"Impl::fn" | "::fn" | "fn": [rule names]}` (json has no tuple keys; a free function has impl None)."""
     dot_names = set(d.pop("rules_dotall", None) or [])
+    all_dot = ".b1315." in str(origin)      # b1315's dialect: every rule of a json file is applied with re.S
     for rn, rv in (d.pop("rules", None) or {}).items():
         rv = list(rv)
-        dot = "dotall" in rv[3:] or rn in dot_names
+        dot = "dotall" in rv[3:] or rn in dot_names or all_dot
         rv = [x for x in rv if x != "dotall"]
         if len(rv) > 3 and rv[3] == 0: rv[3] = None
         rv = tuple(rv)
